@@ -469,13 +469,17 @@ func VerifC10_UnusableHandleMatrix() {
 // batchEpilogue: when the batch selected through a registered filter, a following batch
 // through another (unregistered) filter must leave the registered filter's cache entry
 // intact — scratch lists handed out by the selection step must not alias the cache.
+type vEpilogue struct{ X uint16 }
+
 func (W *vWorld) batchEpilogue(tag string, q *vQuerySpec) {
 	if W.regBatch == nil {
 		return
 	}
-	W.u.NewEntity(W.id[cT])
-	W.u.NewEntity(W.id[cT])
-	vcheck(tag+"/next-batch-no-panic", !vpanics(func() { W.w.RemoveEntities(NewFilter1[vTag](W.w).Exclusive().Batch(), nil) }))
+	// two throwaway entities of a component type nothing else uses, removed by the next batch
+	idX := ComponentID[vEpilogue](W.w)
+	W.u.NewEntity(idX)
+	W.u.NewEntity(idX)
+	vcheck(tag+"/next-batch-no-panic", !vpanics(func() { W.w.RemoveEntities(NewFilter1[vEpilogue](W.w).Batch(), nil) }))
 	plain := &vQuerySpec{f: q.f}
 	qu := W.regBatch.Query()
 	n, strangers := 0, 0
